@@ -62,6 +62,8 @@ MODULES = ["Spydr.Verilog.Model", "Spydr.Verilog.ModelElab", "Spydr.Verilog.Mode
            "Spydr.Verilog.RoundTripHierD", "Spydr.Verilog.RoundTripHierE",
            "Spydr.Verilog.RoundTripHierF", "Spydr.Verilog.RoundTripHierG", "Spydr.Verilog.RoundTripHierH",
            "Spydr.Verilog.RoundTripHierI",
+           "Spydr.Verilog.RoundTripAsgA", "Spydr.Verilog.RoundTripAsgB", "Spydr.Verilog.RoundTripAsgC",
+           "Spydr.Verilog.RoundTripAsgD", "Spydr.Verilog.RoundTripAsgE",
            "Spydr.Verilog.WFWiresA", "Spydr.Verilog.WFWiresB", "Spydr.Verilog.WFWiresC",
            "Spydr.Verilog.WFBase", "Spydr.Verilog.WFPort", "Spydr.Verilog.WFEval", "Spydr.Verilog.WFHeader",
            "Spydr.Verilog.WFDecl", "Spydr.Verilog.WFInst", "Spydr.Verilog.WFDesign", "Spydr.Verilog.WFStruct"]
@@ -77,7 +79,7 @@ THEOREMS = {
             "Spydr.Verilog.Elab.wires_fold", "Spydr.Verilog.Elab.elabModule_frag", "Spydr.Verilog.Elab.elabDesign_frag",
             "Spydr.Verilog.Elab.exDesign_frag",
             "Spydr.Verilog.Elab.regrow_wf", "Spydr.Verilog.Elab.createOrUpdateCable_wf", "Spydr.Verilog.Elab.createOrUpdatePort_wf", "Spydr.Verilog.Elab.reorderPorts_wf", "Spydr.Verilog.Elab.portDecl_wf", "Spydr.Verilog.Elab.connectInstRow_wf", "Spydr.Verilog.Elab.instantiate_wf", "Spydr.Verilog.Elab.positional_wf", "Spydr.Verilog.Elab.assignStmt_wf", "Spydr.Verilog.Elab.elabModule_wf", "Spydr.Verilog.Elab.elabDesign_wf", "Spydr.Verilog.Elab.readV_wf", "Spydr.Verilog.Elab.structWF_iff", "Spydr.Verilog.Elab.reader_structWF", "Spydr.Verilog.Elab.elab_structWF", "Spydr.Verilog.Elab.exNet_structWF", "Spydr.Verilog.Elab.pending_not_emptied",
-            "Spydr.Verilog.Elab.createOrUpdateCable_ww", "Spydr.Verilog.Elab.elabDesign_ww", "Spydr.Verilog.Elab.reader_wiresWF", "Spydr.Verilog.Elab.elab_wiresWF", "Spydr.Verilog.Elab.exNet_wiresWF", "Spydr.Verilog.Elab.unnamed_port_on_declared"],
+            "Spydr.Verilog.Elab.createOrUpdateCable_ww", "Spydr.Verilog.Elab.elabDesign_ww", "Spydr.Verilog.Elab.reader_wiresWF", "Spydr.Verilog.Elab.elab_wiresWF", "Spydr.Verilog.Elab.exNet_wiresWF", "Spydr.Verilog.Elab.positional_too_many_rejected", "Spydr.Verilog.Elab.positional_undeclared_creates_ports"],
     "C04": ["Spydr.Verilog.emit_eval", "Spydr.Verilog.emit_eval_spec", "Spydr.Verilog.decl_range_roundtrip",
             "Spydr.Verilog.alias_header_roundtrip", "Spydr.Verilog.assign_regen", "Spydr.Verilog.assign_regen_all",
             "Spydr.Verilog.write_order_defined", "Spydr.Verilog.write_order_total", "Spydr.Verilog.visit_order_defined",
@@ -101,7 +103,8 @@ THEOREMS = {
             "Spydr.Verilog.Elab.buildBB_low", "Spydr.Verilog.Elab.c04_full_ast", "Spydr.Verilog.Elab.c04_full_bb", "Spydr.Verilog.Elab.exNetBB_full", "Spydr.Verilog.Elab.nobb_row_shrinks", "Spydr.Verilog.Elab.exNetRB_full",
             "Spydr.Verilog.Elab.instantiate_firstG", "Spydr.Verilog.Elab.instStep2_runG", "Spydr.Verilog.Elab.insts_foldG", "Spydr.Verilog.Elab.declStepA_run", "Spydr.Verilog.Elab.wire_foldG", "Spydr.Verilog.Elab.elabModule_lateW", "Spydr.Verilog.Elab.late_fold", "Spydr.Verilog.Elab.elabDesign_hier", "Spydr.Verilog.Elab.exHier_builds",
             "Spydr.Verilog.Elab.late_facts", "Spydr.Verilog.Elab.view_core", "Spydr.Verilog.Elab.buildLateW_view", "Spydr.Verilog.Elab.hier_fold", "Spydr.Verilog.Elab.c04_view_hier", "Spydr.Verilog.Elab.c04_ast_hier", "Spydr.Verilog.Elab.exNetH_frag",
-            "Spydr.Verilog.Elab.topGo_work", "Spydr.Verilog.Elab.parse_hier", "Spydr.Verilog.Elab.composeV_text_hier", "Spydr.Verilog.Elab.chars_filePH", "Spydr.Verilog.Elab.c04_text_hier", "Spydr.Verilog.Elab.exNetH_struct", "Spydr.Verilog.Elab.exNetH_roundtrip"],
+            "Spydr.Verilog.Elab.topGo_work", "Spydr.Verilog.Elab.parse_hier", "Spydr.Verilog.Elab.composeV_text_hier", "Spydr.Verilog.Elab.chars_filePH", "Spydr.Verilog.Elab.c04_text_hier", "Spydr.Verilog.Elab.exNetH_struct", "Spydr.Verilog.Elab.exNetH_roundtrip",
+            "Spydr.Verilog.Elab.asgStepR_run", "Spydr.Verilog.Elab.asg_foldG", "Spydr.Verilog.Elab.late_prefix", "Spydr.Verilog.Elab.elabModule_lateWA", "Spydr.Verilog.Elab.top_prefix", "Spydr.Verilog.Elab.elabModule_wtopA", "Spydr.Verilog.Elab.late_foldA", "Spydr.Verilog.Elab.elabDesign_hierA", "Spydr.Verilog.Elab.exHierA_builds", "Spydr.Verilog.Elab.asg_view_step", "Spydr.Verilog.Elab.asgs_view", "Spydr.Verilog.Elab.view_coreA", "Spydr.Verilog.Elab.buildLateWA_view", "Spydr.Verilog.Elab.hier_foldA", "Spydr.Verilog.Elab.c04_view_hierA", "Spydr.Verilog.Elab.c04_ast_hierA", "Spydr.Verilog.Elab.exNetHA_frag", "Spydr.Verilog.Elab.exNetHA_has_assigns"],
 }
 
 
@@ -1625,6 +1628,33 @@ def run_input(res, impl, pid, inp, drv=None):
                     corr_c04_writer(res, drv, impl, nl, V.view(nl), known or (trig[0] if trig else None), dict(inp))
                     if not ext:
                         corr_c04_order(res, drv, nl, dict(inp))
+    elif kind == "malformed":
+        # a text that describes NO design (recorded reason: inp["why"]; the independent denotation refuses the design):
+        # the reader has to reject it, and so has the model
+        design, text, sig = inp["design"], inp["text"], inp.get("signature", K.SIG_POS_EXTRA)
+        res.case(stable_hash(inp), True)
+        res["obligations"].append(("corpus input %s lies outside the design domain (independent denotation refuses it)"
+                                   % sig, not valid_design(design), inp.get("why", "")))
+        try:
+            nl = impl.parse(text)
+            accepted = "; ".join("%s(%s)" % (d.name, ", ".join(str(p.name) for p in d.ports))
+                                 for lib in nl.libraries for d in lib.definitions)
+        except Exception:                                     # noqa: BLE001
+            accepted = None
+        if accepted is not None:
+            res.spec_failure(sig, dict(inp), "accepted, built " + accepted + " -- " + inp.get("why", ""))
+        if drv is not None:
+            o1 = drv.ask({"fn": "read", "text": text})
+            o2 = drv.ask({"fn": "elab", "modules": design_ast(design)})
+            for what, o in (("readV", o1), ("elabDesign", o2)):
+                if "error" in o:
+                    res.corr_mismatch("C06.%s: driver understood the malformed input" % what, dict(inp), None, o)
+                elif bool(o.get("ok")) != (accepted is not None):
+                    res.corr_mismatch("C06.%s vs sdn.parse (acceptance of a text that describes no design)" % what, dict(inp),
+                                      "accepted" if accepted is not None else "rejected",
+                                      "accepted" if o.get("ok") else o.get("raise"), signature=sig)
+                elif o.get("ok"):
+                    res.corr_mismatch("C06.%s accepts a text that describes no design" % what, dict(inp), "accepted", "accepted")
     elif kind == "bundled":
         files = [f for f in bundled_texts(1 << 30) if f[0] == inp["file"]]
         if pid == "C06":
